@@ -85,7 +85,8 @@ length + FNV-1a digest -/
 def showOut (before after : Pipe) : List String :=
   let newly := after.peerBytes.drop before.peerBytes.length
   [if newly.length > 4096 then "P out len=" ++ toString newly.length ++ " fnv=" ++ hex32 (fnv newly)
-   else "P out " ++ hexOfBytes newly] ++ (if before.valid && !after.valid then ["P eof"] else [])
+   else "P out " ++ hexOfBytes newly] ++ (if before.valid && !after.valid then ["P eof"] else []) ++
+  ["M shutdown -"]   -- the server never shuts a connection down half-way (harness: shutdown() calls on the server side)
 
 def parseKVs? (w : String) : Option (List (Bytes × Bytes)) :=
   if w == "-" then some [] else
@@ -102,7 +103,11 @@ def doDone (tag : String) (s : Server) (i : Nat) (r : Respond) : Option (Server 
   | none => none
   | some s' =>
     let s'' := if s.halfSpec && s'.outstanding.isEmpty && s'.pipe.valid then s'.emit [.drop] else s'
-    some (s'', ["B " ++ tag ++ " " ++ " ".intercalate (pipeTags s.pipe s''.pipe ++ (if s.pipe.wbroken then ["after-write-error"] else []))]
+    some (s'', ["B " ++ tag ++ " " ++ " ".intercalate (pipeTags s.pipe s''.pipe ++ (if s.pipe.wbroken then ["after-write-error"] else []) ++
+                 (if s''.pipe.wbroken && !s.pipe.wbroken then
+                    (if s''.pipe.written.length > s.pipe.written.length + 1 then ["epipe-mid-batch"] else ["epipe-in-commit"]) else []) ++
+                 (if s''.stuck && !s.stuck then ["send-buffer-stuck"] else []) ++
+                 (if s''.wq.length < s.wq.length then ["wq-used"] else []))]
                ++ showOut s.pipe s''.pipe)
 
 def deliveredLines (ds : List Delivered) : List String :=
@@ -123,7 +128,8 @@ def doSeg (s : Server) (seg : Bytes) : Server × List String :=
   let (s', ds, st) := s.seg cfg seg
   let stl := match st with | .threw => ["P exception"] | .hang => ["P hang"] | .ok => []
   (s', ["B " ++ " ".intercalate (ds.map (fun _ => "req-srv") ++ scriptTags s ds ++ pipeTags s.pipe s'.pipe ++
-          (if s.conn.closed && s.pipe.valid then ["seg-after-close"] else []))] ++
+          (if s.conn.closed && s.pipe.valid then ["seg-after-close"] else []) ++
+          (if s'.pipe.wbroken && !s.pipe.wbroken then ["epipe-in-seg"] else []))] ++
        deliveredLines ds ++ stl ++
        -- after an exception the loop is not run again: a pending close of the socket is not seen by the client
        (showOut s.pipe s'.pipe).filter (fun l => !(st == .threw && l == "P eof")))
@@ -140,7 +146,17 @@ def parseScript (spec : String) : Option HScript :=
   levels.mapM fun lv => if lv == "-" then some [] else (lv.splitOn ".").mapM parseAct
 
 def poisonOps : List String :=
-  ["seg", "done", "doneN", "doneR", "rel", "cclose", "dclose", "dcloseN", "cdone", "chalf", "chalfS", "wfail", "sstop", "sclean"]
+  ["seg", "done", "doneN", "doneR", "rel", "cclose", "dclose", "dcloseN", "cdone", "chalf", "chalfS", "wfail", "sstop", "sclean", "wq", "rseg"]
+
+/-- `p` pass, `a` EAGAIN, `e` EPIPE, `s<n>` short count -/
+def parseWAns (w : String) : Option WAns :=
+  if w == "p" then some .pass else if w == "a" then some .again else if w == "e" then some .epipe
+  else if w.startsWith "s" then (w.drop 1).toString.toNat?.map WAns.short
+  else none
+
+def wqTags (q : List WAns) : String :=
+  " ".intercalate (q.map fun a => match a with
+    | .pass => "wq-pass" | .short _ => "wq-short" | .again => "wq-again" | .epipe => "wq-epipe")
 
 def stepLine (m : Mode) (line : String) : Mode × List String :=
   let ws := words line
@@ -166,6 +182,27 @@ def stepLine (m : Mode) (line : String) : Mode × List String :=
     match m with
     | .fresh => (.server {}, ["P srv"])
     | _ => (m, ["bad-op"])
+  | ["srv", k] =>
+    -- the first k accept() calls of the listener fail (EMFILE, ECONNABORTED …): the connection is accepted in a later pass
+    match k.toNat?, m with
+    | some k, .fresh => if k ≥ 1 && k ≤ 5 then (.server {}, ["B accept-errors", "P srv"]) else (m, ["bad-op"])
+    | _, _ => (m, ["bad-op"])
+  | ["wq", spec] =>
+    match (spec.splitOn ",").mapM parseWAns, m with
+    | some q, .server s =>
+      if q.length > 8 then (m, ["bad-op"]) else
+      (.server (s.setWq q), ["B wq " ++ wqTags q ++ (if s.outstanding.length > 1 then " wq-batch" else ""), "P wq"])
+    | _, _ => (m, ["bad-op"])
+  | ["rseg", h] =>
+    -- the client sends a segment, the server's readv fails with ECONNRESET: torn down, the segment is never parsed
+    match bytesOfHex h, m with
+    | some b, .server s =>
+      if b.isEmpty || s.cclosed then (m, ["bad-op"]) else
+      if s.halfSpec then (m, ["B seg-after-half-close", "P out -", "M shutdown -"]) else
+      let s' := s.rerr
+      (.server s', ["B rseg " ++ (if s.pipe.valid then "read-error-live" else "read-error-after-drop") ++
+          (if s.outstanding.isEmpty then "" else " read-error-outstanding")] ++ showOut s.pipe s'.pipe)
+    | _, _ => (m, ["bad-op"])
   | ["sync", i, h] =>
     match i.toNat?, bytesOfHex h, m with
     | some i, some b, .server s =>
@@ -182,7 +219,7 @@ def stepLine (m : Mode) (line : String) : Mode × List String :=
     match bytesOfHex h, m with
     | some b, .server s =>
       if b.isEmpty then (m, ["bad-op"]) else
-      if s.halfSpec then (m, ["B seg-after-half-close", "P out -"]) else
+      if s.halfSpec then (m, ["B seg-after-half-close", "P out -", "M shutdown -"]) else
       let (s', ls) := doSeg s b; (.server s', ls)
     | _, _ => (m, ["bad-op"])
   | ["doneN", i, n, b] =>
